@@ -12,6 +12,7 @@ import (
 	"testing"
 	"time"
 
+	sgbucket "github.com/couchbase/sg-bucket"
 	"github.com/couchbase/sync_gateway/base"
 	"github.com/couchbase/sync_gateway/channels"
 )
@@ -118,6 +119,7 @@ type c08Env struct {
 	ctx    context.Context
 	dbc    *DatabaseContext
 	active *channels.ActiveChannels
+	traces int
 }
 
 const c08MaxWait = 24 * time.Hour
@@ -130,7 +132,8 @@ type c08Inst struct {
 	star    *singleChannelCacheImpl
 	initial uint64
 	maxp    int
-	seen    int // deliveries already reported
+	seen    int  // deliveries already reported
+	viaFeed bool // unused-sequence notifications enter through DocChanged with a real feed event (key parsing glue)
 }
 
 func (e *c08Env) newInst(maxp int, initial uint64) *c08Inst {
@@ -179,7 +182,15 @@ func (in *c08Inst) apply(op c08Op) {
 	case "A":
 		switch op.Kind {
 		case c08Unused:
-			in.cc.releaseUnusedSequence(ctx, op.S, ts)
+			if in.viaFeed {
+				tm := time.Now()
+				if op.Aged {
+					tm = tm.Add(-2 * c08MaxWait)
+				}
+				in.cc.DocChanged(sgbucket.FeedEvent{Key: []byte(in.cc.metaKeys.UnusedSeqKey(op.S)), TimeReceived: tm}, DocTypeUnusedSeq)
+			} else {
+				in.cc.releaseUnusedSequence(ctx, op.S, ts)
+			}
 		case c08Princ:
 			in.cc.processEntry(ctx, &LogEntry{Sequence: op.S, DocID: fmt.Sprintf("_user/u%d", op.S), IsPrincipal: true, TimeReceived: ts})
 		default:
@@ -187,7 +198,11 @@ func (in *c08Inst) apply(op c08Op) {
 				CollectionID: base.DefaultCollectionID})
 		}
 	case "R":
-		in.cc.releaseUnusedSequenceRange(ctx, op.S, op.Hi, ts)
+		if in.viaFeed && !op.Aged { // processUnusedSequenceRange stamps the entry with the current time
+			in.cc.DocChanged(sgbucket.FeedEvent{Key: []byte(in.cc.metaKeys.UnusedSeqRangeKey(op.S, op.Hi)), TimeReceived: time.Now()}, DocTypeUnusedSeqRange)
+		} else {
+			in.cc.releaseUnusedSequenceRange(ctx, op.S, op.Hi, ts)
+		}
 	case "H":
 		atomic.StoreInt64(&in.cc.lastAddPendingTime, 0) // "CachePendingSeqMaxWait has passed since the last run"
 		_ = in.cc.InsertPendingEntries(ctx)
@@ -528,6 +543,8 @@ type c08Result struct {
 func (e *c08Env) runTrace(rec *vRecorder, stream string, maxp int, initial uint64, ops []c08Op, consistent bool) c08Result {
 	in := e.newInst(maxp, initial)
 	defer in.close()
+	e.traces++
+	in.viaFeed = (stream == "random-consistent" || stream == "adversarial" || stream == "corpus") && e.traces%2 == 0
 	m := &c08Mon{rec: rec, stream: stream, maxp: maxp, initial: initial, consistent: consistent, prevNext: initial + 1}
 	var res c08Result
 	for _, op := range ops {
@@ -699,8 +716,8 @@ func TestVerifC08(t *testing.T) {
 	// ---- (b) bounded-exhaustive: every arrival order of a window with one event delivered twice at every later
 	//      position, fresh and aged+housekeeping, for every pending-queue threshold.  Every trace is monitored in
 	//      Go.  Evaluated on the model in Coq: window of 3 always in full; window of 4 in full at initial sequence 0
-	//      (a deterministic quarter at initial sequence 10 in the quick tier); window of 5 a deterministic 1/24 in
-	//      the quick tier; everything in the thorough tier ----
+	//      for thresholds 0 and 2 (a deterministic quarter of the rest in the quick tier); window of 5 a deterministic
+	//      1/32 in the quick tier; everything in the thorough tier (12 shards of 400 = one round of parallel coqc) ----
 	nExh := 0
 	for _, maxp := range thresholds {
 		for _, initial := range []uint64{0, 10} {
@@ -721,7 +738,7 @@ func TestVerifC08(t *testing.T) {
 				}
 				c08Exhaustive(c08Window(initial, 4, rangeAt), func(ops []c08Op) {
 					n4++
-					env.doCase(rec, "exhaustive", "window4", maxp, initial, ops, vThorough() || initial == 0 || n4%4 == 0)
+					env.doCase(rec, "exhaustive", "window4", maxp, initial, ops, vThorough() || (initial == 0 && (maxp == 0 || maxp == 2)) || n4%4 == 0)
 					nExh++
 				})
 			}
@@ -735,14 +752,14 @@ func TestVerifC08(t *testing.T) {
 			}
 			c08Exhaustive(c08Window(20, 5, rangeAt), func(ops []c08Op) {
 				n5++
-				env.doCase(rec, "exhaustive", "window5", maxp, 20, ops, vThorough() || n5%24 == 0)
+				env.doCase(rec, "exhaustive", "window5", maxp, 20, ops, vThorough() || n5%32 == 0)
 				nExh++
 			})
 		}
 	}
 	rec.Extra("exhaustive", true)
 	rec.Extra("exhaustive_traces", nExh)
-	rec.Extra("exhaustive_scope", "all arrival orders x one event delivered twice at every later position x {fresh, aged+housekeeping} x CachePendingSeqMaxNum in {0,1,2,100}; windows of 3, 4 (with an unused range at each position) and 5; all monitored in Go, Coq-evaluated in full for windows 3 and 4 (initial 0) and by deterministic sample otherwise in the quick tier")
+	rec.Extra("exhaustive_scope", "all arrival orders x one event delivered twice at every later position x {fresh, aged+housekeeping} x CachePendingSeqMaxNum in {0,1,2,100}; windows of 3, 4 (with an unused range at each position) and 5; all monitored in Go, Coq-evaluated in full for window 3 and for window 4 at initial 0 / thresholds 0 and 2, by deterministic sample otherwise in the quick tier, in full in the thorough tier")
 
 	// ---- (c) random, consistent feed: a window partitioned into documents, principals, unused singles and
 	//      unused ranges, delivered out of order with duplicates, ageing, housekeeping and abandon ----
